@@ -202,20 +202,46 @@ def kani_many(names, timeout, jobs):
 REPLAY_DIR = os.path.join(VERIF, 'replay')
 
 
-def replay_build():
+def replay_build(descriptive=False):
     shutil.copyfile(os.path.join(REPO, 'Cargo.lock'), os.path.join(REPLAY_DIR, 'Cargo.lock'))
     tmpl = open(os.path.join(REPLAY_DIR, 'Cargo.toml.in')).read().replace('@REPO@', REPO)
     cur = os.path.join(REPLAY_DIR, 'Cargo.toml')
     if not os.path.exists(cur) or open(cur).read() != tmpl:
         open(cur, 'w').write(tmpl)
-    rc, out, err, wall = sh(['cargo', 'build', '--release', '--offline'], cwd=REPLAY_DIR, timeout=1200)
+    cmd = ['cargo', 'build', '--release', '--offline']
+    tdir = 'target'
+    if descriptive:
+        # second configuration (C19): same harness, real crate compiled with feature descriptive-deserialize-errors
+        tdir = 'target_on'
+        cmd += ['--features', 'descriptive', '--target-dir', tdir]
+    rc, out, err, wall = sh(cmd, cwd=REPLAY_DIR, timeout=1200)
     if rc != 0:
-        raise Undecided('replay crate does not build against the current tree: %s' % err[-2500:])
-    return os.path.join(REPLAY_DIR, 'target', 'release', 'replay')
+        raise Undecided('replay crate does not build against the current tree%s: %s' % (' (feature descriptive-deserialize-errors)' if descriptive else '', err[-2500:]))
+    return os.path.join(REPLAY_DIR, tdir, 'release', 'replay')
 
 
 def replay_run(binary, args, timeout=600):
     rc, out, err, wall = sh([binary] + args, timeout=timeout)
+    if rc not in (0, 1, 2, 124) and args and args[0] in ('search', 'probe', 'replay'):
+        # the process died inside the real code (allocator abort, stack overflow, ...): that is a failing input, not a tool error
+        died = 'process terminated abnormally (exit status %s): %s' % (rc, err.strip().split('\n')[0][:300] if err.strip() else '')
+        if args[0] == 'search':
+            last = os.path.join(GEN, 'last_input.json')
+            os.makedirs(GEN, exist_ok=True)
+            env = dict(os.environ, VERIF_LOG_LAST_INPUT=last)
+            try:
+                if os.path.exists(last):
+                    os.remove(last)
+                subprocess.run([binary] + args, env=env, stdout=subprocess.PIPE, stderr=subprocess.PIPE, timeout=timeout)
+            except Exception:
+                pass
+            if os.path.exists(last):
+                out += '\ncontract violated: %s\nFAILING-INPUT %s\n' % (died, open(last).read().strip())
+            else:
+                out += '\ncontract violated: %s\n' % died
+        else:
+            out += '\n' + died + '\n'
+        rc = 1
     return rc, out, err, wall
 
 
@@ -456,9 +482,59 @@ def check(pid, tier, seed):
         elif k.get('covers') is not None and k.get('covers_sat', 0) < k.get('covers', 0):
             undecided.append('kani harness %s: %d of %d cover properties unsatisfied (vacuous assumption?)' % (k['harness'], k['covers'] - k['covers_sat'], k['covers']))
 
+    # ---- C19 side condition: syntactic frame rule over every cfg-gated site (tools/cfggate.py)
+    static_sites = []
+    if cfg.get('static_cfggate'):
+        import cfggate
+        static_sites = cfggate.scan(REPO)
+        on_fns = set()
+        for r in verus_runs:
+            if r['features']:
+                for f in r['meta']['functions']:
+                    if not f['assumed']:
+                        on_fns.add(f['fn'].split(' :: ')[-1])
+        for st in static_sites:
+            if st['accepted']:
+                st['decided_by'] = 'frame rule ' + st['kind']
+            elif st.get('fn') and st['fn'].split(' :: ')[-1] in on_fns and not failed_obls:
+                st['decided_by'] = 'verus (feature-on variant of the enclosing function verifies against the same contract)'
+            else:
+                st['decided_by'] = None
+                undecided.append('cfg-gated code at %s:%d in %s is outside the frame rule (%s) and its function is not under contract' % (st['file'], st['line'], st.get('fn'), st.get('why')))
+
+    # ---- C19 differential stand-in: the same inputs through both builds of the real crate (sampled, not a proof)
+    differential = None
+    if cfg.get('differential') and os.path.exists(os.path.join(REPLAY_DIR, 'Cargo.toml.in')):
+        try:
+            b_off = replay_bin or replay_build()
+            replay_bin = b_off
+            b_on = replay_build(descriptive=True)
+            budget = '5000' if tier == 'quick' else '100000'
+            rc1, out1, err1, w1 = sh([b_off, 'trace', 'decode', str(seed), budget], timeout=900)
+            rc2, out2, err2, w2 = sh([b_on, 'trace', 'decode', str(seed), budget], timeout=900)
+            l1, l2 = out1.split('\n'), out2.split('\n')
+            differential = {'inputs': len(l1) - 1, 'wall_s': round(w1 + w2, 1), 'rc': [rc1, rc2], 'mismatch': None,
+                            'what': 'trace of group decode (random / truncated / bit-flipped input through every Reader method), feature off vs on'}
+            if rc1 != 0 or rc2 != 0:
+                undecided.append('differential trace did not complete (rc %s / %s): %s' % (rc1, rc2, (err1 + err2)[-300:]))
+            else:
+                for a, b in zip(l1, l2):
+                    if a != b:
+                        differential['mismatch'] = {'off': a[:600], 'on': b[:600]}
+                        inp = a.split(' => ')[0]
+                        payload = {'property': pid, 'obligation': 'differential: same outcome with and without feature descriptive-deserialize-errors', 'kind': 'differential',
+                                   'verifier': 'two builds of the real crate', 'verifier_output': 'off: %s\non:  %s' % (a[:600], b[:600]), 'input': json.loads(inp)}
+                        path = write_replay_file(pid, 'differential', payload)
+                        violations.append(('differential::decode', path, True))
+                        break
+        except Undecided as ex:
+            undecided.append(str(ex))
+
     # ---- evidence
     obligations = sum(r['verified'] + r['errors'] for r in verus_runs) + sum(k.get('checks', 0) for k in kani_runs if k.get('complete'))
     discharged = sum(r['verified'] for r in verus_runs) + sum(k.get('checks', 0) - k.get('checks_failed', 0) for k in kani_runs if k.get('complete') and k['status'] == 'SUCCESSFUL')
+    obligations += len(static_sites)
+    discharged += sum(1 for st in static_sites if st.get('decided_by'))
     under_contract = []
     assumed = []
     rewrites = {}
@@ -502,6 +578,8 @@ def check(pid, tier, seed):
         'known_findings_reported': known_lines,
         'uncarved_obligations_attempted': uncarved,
         'counterexample_search': search_runs,
+        'cfg_gated_sites': [{k2: st[k2] for k2 in ('file', 'line', 'kind', 'fn', 'decided_by')} for st in static_sites],
+        'differential_stand_in': differential,
         'undecided': undecided,
         'explanation': cfg.get('explanation', ''),
     })
@@ -516,6 +594,10 @@ def check(pid, tier, seed):
         print('verus %-14s %-4s verified=%d errors=%d  %.1fs' % (r['unit'], '+'.join(r['features']) or '', r['verified'], r['errors'], r['wall_s']))
     for c in canaries:
         print('canary %-13s refuted %d/%d  %.1fs' % (c['unit'], c['refuted'], c['expected'], c['wall_s']))
+    if static_sites:
+        print('cfg-gated sites: %d, frame rule accepts %d' % (len(static_sites), sum(1 for st in static_sites if st['accepted'])))
+    if differential:
+        print('differential off/on: %s inputs, %s' % (differential['inputs'], 'MISMATCH' if differential['mismatch'] else 'identical outcomes'))
     for b in bounded_runs:
         print('bounded %-12s %s inputs=%s  [%s]' % (b['group'], 'ok' if b['rc'] == 0 else 'FAILED', b['inputs'], b['bound']))
     for k in kani_runs:
@@ -541,6 +623,15 @@ def replay(path):
     if payload.get('verifier_output'):
         print('--- verifier output ---')
         print(payload['verifier_output'])
+    if payload.get('kind') == 'differential':
+        b_off = replay_build()
+        b_on = replay_build(descriptive=True)
+        rc1, out1, err1, w1 = sh([b_off, 'outcome', json.dumps(payload['input'])], timeout=120)
+        rc2, out2, err2, w2 = sh([b_on, 'outcome', json.dumps(payload['input'])], timeout=120)
+        print('--- replay against the real code, both builds ---')
+        print('feature off: %s' % out1.strip())
+        print('feature on:  %s' % out2.strip())
+        return 1 if out1 != out2 else 0
     if 'input' in payload or payload.get('kind') == 'probe':
         binary = replay_build()
         if payload.get('kind') == 'probe':
